@@ -48,14 +48,16 @@ def make_record(c):
             x[rs.choice(N, k, replace=False)] = rs.choice([-1, 1], k) * rs.uniform(6, 30, k)
         else:
             # so few isolated pulses that the 99.99% range leaves them out (it drops len - floor(0.9999*len) - 1 samples), from just outside
-            # the range to thousands of full-scale ranges away
+            # the range to a billion full-scale ranges away
             k = max(1, N - int(N * 0.9999) - 1)
-            x[rs.choice(N, k, replace=False)] = rs.choice([-1, 1], k) * 10 ** rs.uniform(0.8, 5, k)
+            x[rs.choice(N, k, replace=False)] = rs.choice([-1, 1], k) * 10 ** rs.uniform(0.8, 9.5, k)
     return x * c["scale"] + c["offset"] * c["scale"]
 
 
 def rng_of(v):
-    return float(np.max(v) - np.min(v)) or 1.0
+    # spread of the bulk of the record (isolated pulses a billion ranges away must not set the offset of the refilled buffer: the samples
+    # themselves would then be representable only to ~1e-6 of a quantisation step)
+    return float(np.percentile(v, 99) - np.percentile(v, 1)) or float(np.max(v) - np.min(v)) or 1.0
 
 
 def e_adc(c):
